@@ -239,6 +239,15 @@ func TestWorker(t *testing.T) {
 	allPrints := map[uint64]bool{}
 	seenSig := map[string]bool{}
 
+	var hashLog *os.File
+	if hl := os.Getenv("VERIF_HASHLOG"); hl != "" {
+		var err error
+		if hashLog, err = os.OpenFile(fmt.Sprintf("%s.%d", hl, offset), os.O_CREATE|os.O_WRONLY|os.O_TRUNC, 0o644); err != nil {
+			fmt.Fprintf(os.Stderr, "hashlog: %v\n", err)
+			os.Exit(2)
+		}
+		defer hashLog.Close()
+	}
 	for run := offset; run < total; run += stride {
 		if time.Since(start) > budget {
 			sum.BudgetHit = true
@@ -259,6 +268,13 @@ func TestWorker(t *testing.T) {
 		}
 		fp := res.Fingerprint()
 		allPrints[fp] = true
+		if hashLog != nil {
+			v := "-"
+			if res.Violation != nil {
+				v = res.Violation.Signature
+			}
+			fmt.Fprintf(hashLog, "%d %s %s\n", run, res.LogHash(), v)
+		}
 		if res.Nontrivial {
 			sum.Nontrivial++
 			if !prints[fp] {
